@@ -33,7 +33,7 @@ echo "demo unchanged exit=$D0, demo changed exit=$D1, suite: $SUITE"
 # run the check against the changed tree: same sources as "git -C /repo apply" would give, but in
 # the scratch worktree (VERIF_REPO) with its own build/evidence/out dirs, so /repo stays untouched
 export VERIF_REPO=$WT VERIF_BUILD=$WT/seedtmp/build VERIF_EVID=$WT/seedtmp/evidence VERIF_OUTD=$WT/seedtmp/out
-( cd /verif && timeout 3000 bin/vcheck $PROP --tier quick > $OUT/check.log 2>&1 ); CK=$?
+( cd /verif && timeout 3000 bin/vcheck $PROP --tier ${TIER:-quick} > $OUT/check.log 2>&1 ); CK=$?
 cp $WT/seedtmp/evidence/$PROP.json $OUT/evidence-with-change.json 2>/dev/null
 NV=$(grep -c "^VIOLATION property=$PROP" $OUT/check.log)
 grep "violation-class" $OUT/check.log | head -5 | cut -c1-400
@@ -48,7 +48,7 @@ meta={"seed":id,"breaks_property":prop,"origin":"independent sub-agent given onl
  "needs_to_manifest":notes[:3000],
  "confirmed":{"demo_exit_unchanged":int(d0),"demo_exit_with_change":int(d1),"suite_with_change":suite,
    "how":"bin/seedtest.sh: scratch worktree of /repo HEAD, demo built against sources with and without patch.diff, bin/baseline_off.sh on the patched worktree"},
- "check":{"cmd":"bin/vcheck %s --tier quick (run against a scratch worktree of /repo HEAD with patch.diff applied)"%prop,"exit":int(ck),"violation_lines":int(nv),"violation_classes":classes},
+ "check":{"cmd":"bin/vcheck %s --tier "+os.environ.get("TIER","quick")+"  (run against a scratch worktree of /repo HEAD with patch.diff applied)"%prop,"exit":int(ck),"violation_lines":int(nv),"violation_classes":classes},
  "detected": int(ck)==1 and int(nv)>0}
 json.dump(meta,open(out+'/meta.json','w'),indent=1)
 print("detected:",meta["detected"])
